@@ -332,6 +332,19 @@ def _check_stmt_batch_impl(args) -> dict:
 	return {'failures': failures, 'nodes': nodes}
 
 
+# node classes whose text is a Python expression on its own (operators, literals, references, calls, comprehensions, type
+# annotations, declared names): the text a span of such a node cuts out must parse as one - a span that starts one token
+# early or ends one late (a quote, `if`, `:`, `=`) does not
+EXPRESSION_CLASSES = {
+	'AltTypesName', 'AndBitwise', 'AndCompare', 'ArgumentLabel', 'CallableType', 'ClassRef', 'Comparison', 'CustomType', 'DeclClassParam',
+	'DeclClassVar', 'DeclLocalVar', 'DeclParam', 'DeclThisParam', 'DeclThisVar', 'DeclThisVarForward', 'DecoratorPath', 'Dict', 'DictComp',
+	'DictType', 'DocString', 'Elipsis', 'Factor', 'Falsy', 'Float', 'FuncCall', 'Group', 'ImportAsName', 'Indexer', 'Integer', 'Lambda', 'List',
+	'ListComp', 'ListType', 'LiteralDictType', 'LiteralType', 'NotCompare', 'Null', 'NullType', 'OrBitwise', 'OrCompare', 'Relay', 'RelayOfType',
+	'ShiftBitwise', 'String', 'Sum', 'Super', 'Term', 'TernaryOperator', 'ThisRef', 'Truthy', 'Tuple', 'TypesName', 'UnionType', 'Var',
+	'VarOfType', 'XorBitwise',
+}
+
+
 def _tree_laws(root_node, lines: list[str], label: str) -> list[dict]:
 	"""child inside parent; node tokens occur in order in the slice; the slice has no surrounding white space"""
 	import rogw.tranp.syntax.node.definition as defs
@@ -352,6 +365,12 @@ def _tree_laws(root_node, lines: list[str], label: str) -> list[dict]:
 		if parent_span and not (parent_span[0] <= b and e <= parent_span[1]):
 			failures.append({'clause': 'ChildInsideParent', 'detail': f'{kind} {n.full_path}: span {b}..{e} outside parent {parent_span[0]}..{parent_span[1]}', 'text': label, 'kind': kind})
 		text = slice_source(lines, n.source_map)
+		if kind in EXPRESSION_CLASSES:
+			import ast as _ast
+			try:
+				_ast.parse('(' + text + '\n)', mode='eval')
+			except SyntaxError:
+				failures.append({'clause': 'ExpressionSliceParses', 'detail': f'{kind} {n.full_path}: the text of its span {b}..{e} is {text[:40]!r}, not an expression', 'text': label, 'kind': kind})
 		pos = 0
 		squeezed = ''.join(text.split())
 		for value in n._values():
@@ -383,6 +402,14 @@ def _real_module_impl(module_path: str) -> dict:
 	from harness.tranp_env import Env, enter_scratch, REPO
 	from rogw.tranp.lang.module import module_path_to_filepath
 	enter_scratch('verif-c16r-')
+	if module_path == 'verif_sample':
+		# the program that holds every node class with child properties (C09's sample): quoted forward references, comprehension filters, aliases, ...
+		from harness.checks.c09 import SAMPLE_PROGRAM
+		env = Env(sources={'verif_sample': SAMPLE_PROGRAM})
+		module = env.load(module_path)
+		lines = SAMPLE_PROGRAM.split('\n')
+		failures = _tree_laws(module.entrypoint, lines, module_path)
+		return {'failures': failures, 'nodes': len(module.entrypoint.procedural()) + 1}
 	env = Env()
 	module = env.load(module_path)
 	path = os.path.join(REPO, module_path_to_filepath(module_path, '.py'))
@@ -432,7 +459,7 @@ def run(ctx: Ctx) -> int:
 		r6 = list(ex.map(_check_own_quotation_lines, [(own_jobs[i::16],) for i in range(16)]))
 		from harness import real_modules
 		modules = real_modules.QUICK if quick else real_modules.LOAD_OK
-		r3 = list(ex.map(_real_module, modules))
+		r3 = list(ex.map(_real_module, list(modules) + ['verif_sample']))
 	failures = [f for r in r1 + r2 + r3 + r4 + r5 + r6 for f in r['failures']]
 	# the harness's MarkRange is the specification's (table evaluated by TLC)
 	mres = tlc.run('PySrcEmit', 'PySrc_1.cfg', workers=1, timeout=300)
